@@ -206,7 +206,7 @@ def check_input_velocity(w, rep):
         rc = I["reset_position"].s()
         for val, label in ((True, "reset"),):
             Or = assign_ites(O["pw_sp1"], {rc: val})
-            verdict(rep, "C15.clamp", "reset_position selects pw_sp1 = pw", Or, pw, (), W, "a reset does not put the position set-point on the vehicle")
+            verdict_by_branches(rep, "C15.clamp", "reset_position selects pw_sp1 = pw", Or, pw, (), W, "a reset does not put the position set-point on the vehicle")
         # no reset: e = pw_sp + vw dt - pw
         un_ = MatVal(3, 1, [[u] for u in us])
         Un = assign_ites(un_, {rc: False})
